@@ -552,39 +552,61 @@ func c18r4(c *core.Ctx) {
 		if f.Recv != "Resources" || f.Sig == nil {
 			continue
 		}
-		var store *ast.AssignStmt
-		var ix *ast.IndexExpr
-		core.InspectNoLits(f.Body, func(x ast.Node) bool {
-			if as, ok := x.(*ast.AssignStmt); ok && len(as.Lhs) == 1 && len(as.Rhs) == 1 && as.Tok == token.ASSIGN {
-				// the slot itself, or a local pointer to it (slot := &r.resources[id.id]; *slot = res)
-				if i2, ok := ast.Unparen(m.Inline(as.Lhs[0])).(*ast.IndexExpr); ok && fieldKeyOf(m, i2.X) == "Resources.resources" {
-					store, ix = as, i2
+		// the store into a slot: in the method itself (the slot, or a local pointer to it), or in a small accessor of a
+		// wrapper type around the slot list that the method calls (r.resources.set(id.id, res)), read under the call's
+		// arguments; `site` is the node of f at which the store happens
+		var site ast.Node
+		slot, isClear, okIdx := "", false, false
+		look := func(root ast.Node, at ast.Node) {
+			core.InspectNoLits(root, func(x ast.Node) bool {
+				as, ok := x.(*ast.AssignStmt)
+				if !ok || len(as.Lhs) != 1 || len(as.Rhs) != 1 || as.Tok != token.ASSIGN || site != nil {
+					return true
 				}
-			}
-			return true
-		})
-		if store == nil || f.Sig.Params().Len() == 0 {
+				i2, ok := ast.Unparen(m.Inline(as.Lhs[0])).(*ast.IndexExpr)
+				if !ok || fieldKeyOf(m, i2.X) != "Resources.resources" {
+					return true
+				}
+				site = at
+				if at == nil {
+					site = as
+				}
+				slot = m.ExprString(i2)
+				isClear = m.ExprString(as.Rhs[0]) == "nil"
+				if sel, ok := ast.Unparen(m.Inline(i2.Index)).(*ast.SelectorExpr); ok && fieldKeyOf(m, sel) == "ResID.id" {
+					okIdx = true
+				}
+				return true
+			})
+		}
+		look(f.Body, nil)
+		if site == nil {
+			core.InspectNoLits(f.Body, func(x ast.Node) bool {
+				call, ok := x.(*ast.CallExpr)
+				if !ok || site != nil {
+					return true
+				}
+				if k, cal, _ := m.Callee(call); k == core.CallStatic && cal != nil && cal.Body != nil && cal.Obj != nil && !cal.Obj.Exported() && cal.Recv != "Resources" {
+					m.WithCall(cal, call, func() { look(cal.Body, call) })
+				}
+				return true
+			})
+		}
+		if site == nil || f.Sig.Params().Len() == 0 {
 			continue
 		}
-		slot := m.ExprString(ix)
-		isClear := m.ExprString(store.Rhs[0]) == "nil"
 		subject := f.Name
 		n++
-		// index is the id of the ResID parameter
-		okIdx := false
-		if sel, ok := ast.Unparen(ix.Index).(*ast.SelectorExpr); ok && fieldKeyOf(m, sel) == "ResID.id" {
-			okIdx = true
-		}
 		// guard, decided on paths: the store that adds is reached only with the slot known to be empty, the store
 		// that clears only with it known to be occupied (whatever the if / else / early-return form of the test)
 		guarded := false
-		if v, known := knownAtoms(m, f, store)[slot+"==nil"]; known && v == !isClear {
+		if v, known := knownAtoms(m, f, site)[slot+"==nil"]; known && v == !isClear {
 			guarded = true
 		}
 		if okIdx && guarded {
 			c.OK("C18/R4", subject, c.At(f.Pos()), "slot indexed by the resource id and tested before it is written")
 		} else {
-			c.Violation("C18/R4", subject, c.At(store.Pos()), fmt.Sprintf("%s: slot indexed by id=%v, tested before write=%v; a second resource of one type could replace the first (or a missing one be removed silently)", f.Name, okIdx, guarded))
+			c.Violation("C18/R4", subject, c.At(site.Pos()), fmt.Sprintf("%s: slot indexed by id=%v, tested before write=%v; a second resource of one type could replace the first (or a missing one be removed silently)", f.Name, okIdx, guarded))
 		}
 	}
 	if n == 0 {
